@@ -5,6 +5,10 @@ set -e
 cd "$(dirname "$0")"
 V=/verif/.venv
 if [ -x $V/bin/python ] && $V/bin/python -c "import z3, cvc5, jax" 2>/dev/null; then exit 0; fi
+# several checks may be started at once on a fresh copy: build the venv under a lock, once
+exec 9>/verif/.setup.lock
+flock 9
+if [ -x $V/bin/python ] && $V/bin/python -c "import z3, cvc5, jax" 2>/dev/null; then exit 0; fi
 rm -rf $V
 /venv/bin/python -m venv $V
 SP=$($V/bin/python -c "import site; print(site.getsitepackages()[0])")
